@@ -10,7 +10,9 @@ BOUND = ("networks with <= 6 variables (1-variable exhaustive, sampled 2-variabl
          "variables; (a) fresh diagram x {bfs, dfs, minimal-space, attractor-seed, block with source shortcuts on/off x MAA check on/off/exact, "
          "scc with MAA check on/off}; (b) a seeded plain-expansion prefix of <= 3 limited calls followed by unrestricted bfs/dfs/minimal-space/"
          "attractor-seed expansion; (c) a limited prefix followed by skip_remaining / skip_to_minimal on every stub / minimal-space expansion with "
-         "skip_ignored")
+         "skip_ignored; (d) networks whose diagram has depth >= 2 (unions of 2-3 bistable modules, nested switches, latch DAGs): an earlier partial expansion "
+         "(level-limited bfs, stack-limited dfs, manual single-node expansions, minimal-space / attractor-seed expansion) followed by a bfs from the root whose level "
+         "limit (0..2) is SHALLOWER than what is already expanded - whatever it returns, True claims completion")
 RULE = "non-trivial = the network has at least two minimal trap spaces or the full reference diagram has at least 3 nodes"
 CASE_TIMEOUT = 60.0
 
@@ -21,7 +23,28 @@ RESUME = [["bfs", None, None, None], ["dfs", None, None, None], ["min", None, No
 SKIPS = [["skip_remaining"], ["skip_all"], ["min", None, None, True]]
 
 
+def shape_cases(seed, tier):
+    """(d): deep diagrams x 'partial expansion, then a shallower level-limited bfs from the root'."""
+    fixed = [(p, f) for p, f in families.shallower_histories() if f[1] is None]
+    for k, (name, bnet) in enumerate(families.deep_nets(seed, tier)):
+        names = families.variables(bnet)
+        if name in families.DEEP:
+            for pre, final in fixed:
+                yield {"net": name, "bnet": bnet, "prefix": pre, "final": final}
+        else:
+            rng = random.Random(f"{seed}-{name}-c03-shallow")
+            for pre, final in [fixed[k % len(fixed)], fixed[(k * 7 + 3) % len(fixed)]]:
+                yield {"net": name, "bnet": bnet, "prefix": pre, "final": final}
+            pre, final = families.random_shallower_history(rng, names)
+            yield {"net": name, "bnet": bnet, "prefix": pre, "final": ["bfs", None, final[2], None]}
+
+
 def cases(seed, tier):
+    # shape family interleaved 1:4 with the general family (its ~170 fixed cases are all handed out within the first ~900 cases)
+    yield from families.interleave((shape_cases(seed, tier), 1), (general_cases(seed, tier), 4))
+
+
+def general_cases(seed, tier):
     for name, bnet in families.network_family(seed, tier, hand_max_vars=9):
         names = families.variables(bnet)
         for f in FRESH:
@@ -32,6 +55,10 @@ def cases(seed, tier):
             yield {"net": name, "bnet": bnet, "prefix": pre, "final": rng.choice(RESUME)}
             pre = families.random_history(rng.randrange(1 << 30), names, rng.randint(1, 2), families.PLAIN_OPS)
             yield {"net": name, "bnet": bnet, "prefix": pre, "final": rng.choice(SKIPS)}
+        # (d) on the general family: a seeded partial expansion, then a level-limited bfs from the root
+        rng = random.Random(f"{seed}-{name}-c03-shallow")
+        pre, final = families.random_shallower_history(rng, names)
+        yield {"net": name, "bnet": bnet, "prefix": pre, "final": ["bfs", None, final[2], None]}
 
 
 def check_with_info(case):
